@@ -198,8 +198,11 @@ def step_payload_ok_loose(name, doc, step):
 
     S, O = D.schema(name)
     if isinstance(step, (ReplaceStep, ReplaceAroundStep)):
+        # the nodes of the slice must be schema nodes with allowed marks; its open depths may be anything
+        from prosemirror.model import Slice as _S
+
         try:
-            return slice_ok(O, step.slice)
+            return slice_ok(O, _S(step.slice.content, 0, 0)) or slice_ok(O, step.slice)
         except Exception:  # noqa: BLE001
             return False
     return True
